@@ -69,6 +69,14 @@ CLAIMED = {
             "ids, rules, coefficients and labels.",
             "Bounds: <=3 species x <=3 reactions, coefficient sets incl. multi-digit values, catalysts, duplicates, "
             "source/sink; names {A,B,C1,Fe}; all values are realised (hashed/cast/formatted): solver-driven exhaustion."),
+    "C18": ("Bounded symbolic model checking of CRNCanonicalizer and CRNAutomorphism on the real code for every network in the "
+            "bounds against its image under a solver-chosen species renaming, reversed reaction order and regenerated "
+            "ids: canonical graph isomorphic to the view, identical canonical graphs for renamed copies (also under an "
+            "adversarial id() stub), different ones for non-isomorphic views, automorphism counts and orbits against "
+            "brute-force self-maps.",
+            "Bounds: <=3 species x <=2 reactions (coefficients <=2), 2 species x 3 reactions, ring of 3; bipartite view "
+            "with/without stoichiometry and species view; all values realised (solver-driven exhaustion); id() in "
+            "CRN.Topo.canon is stubbed (constant / fresh) where the code still calls it."),
     "C19": ("Bounded symbolic model checking of DeficiencyAnalyzer on the real conversion + complex-graph code: all networks "
             "within the bounds are enumerated by the solver; complexes, linkage classes, weak reversibility, rank, "
             "deficiency and linkage deficiencies are compared with exact (rational) definitions.",
